@@ -127,11 +127,41 @@ def storeTxn {σ : Type} (sem : StateSem σ) (c : Chain σ) (B : Bundle) : Excep
         if sem.root st' B.block.header.version ≠ B.su.newRoot then .error .state
         else .ok ⟨some ⟨B.block.header.number, B.block.header.hash⟩, st', B :: c.stored⟩
 
+/-- SWITCH (the model follows the code). `false`: `/repo` as it is — the new state backend's
+`Store` opens the state with `state.New(stateUpdate.OldRoot, …)`. `true`: with
+`proposed-fixes/C02-new-state-backend-old-root-unchecked.diff` it opens it at the head's stored root. -/
+def newBackendOpensAtHeadRoot : Bool := false
+
+/-- `state.New(root)` of the new backend (`trie2.New`): a ZERO root selects empty tries, any other
+root resolves the tries currently on disk (`cur`). -/
+def openedAt {σ : Type} (empty cur : σ) (root : Term) : σ := if root = .felt 0 then empty else cur
+
+/-- `stateBackend.Store` (new state backend, core/state). Same as `storeTxn` except for the state
+the diff is applied to: as the code is, the state opened at the caller-supplied `OldRoot`, which
+makes `verifyComm(OldRoot)` compare `OldRoot` with itself when it is zero. (`empty` abstracts
+"empty tries over the current flat state".) -/
+def storeTxnNewBackend {σ : Type} (sem : StateSem σ) (empty : σ) (c : Chain σ) (B : Bundle) : Except Reject (Chain σ) :=
+  match verifySuccession c.head B.block.header with
+  | .error e => .error e
+  | .ok () =>
+    let st := if newBackendOpensAtHeadRoot then c.st else openedAt empty c.st B.su.oldRoot
+    if sem.root st B.block.header.version ≠ B.su.oldRoot then .error .state
+    else match sem.apply st B.block.header.number B.su.diff B.classes with
+      | none => .error .state
+      | some st' =>
+        if sem.root st' B.block.header.version ≠ B.su.newRoot then .error .state
+        else .ok ⟨some ⟨B.block.header.number, B.block.header.hash⟩, st', B :: c.stored⟩
+
 /-- `SanityCheckNewHeight` then `Store`, as the synchroniser calls them. -/
 def accept {σ : Type} (sem : StateSem σ) (net : Net) (c : Chain σ) (B : Bundle) : Except Reject (Chain σ) :=
   match sanityCheck net B with
   | .error e => .error e
   | .ok () => storeTxn sem c B
+
+/-- `none` = accepted, `some e` = rejected with class `e`. -/
+def verdict {α : Type} : Except Reject α → Option Reject
+  | .ok _ => none
+  | .error e => some e
 
 /-- offering a block to a node: the chain afterwards and the verdict. -/
 def offer {σ : Type} (sem : StateSem σ) (net : Net) (c : Chain σ) (B : Bundle) : Chain σ × Option Reject :=
